@@ -48,8 +48,13 @@ class BufV(V):
 
 
 class ParamV(V):
-    def __init__(self, name_t, kind_t):
+    """inspect.Parameter: name, kind, and (as opaque objects) default and annotation"""
+
+    def __init__(self, name_t, kind_t, default_t=None, annot_t=None, idx=None):
         self.name_t, self.kind_t = name_t, kind_t
+        self.default_t = default_t if default_t is not None else z3.Select(arr("param_default", z3.ArraySort(S, Ref)), name_t)
+        self.annot_t = annot_t if annot_t is not None else z3.Select(arr("param_annotation", z3.ArraySort(S, Ref)), name_t)
+        self.idx = idx
 
 
 class ParamL(sym.Layout):
@@ -64,6 +69,8 @@ class ParamL(sym.Layout):
 
 
 Interp.MUTABLE_EXTRA = Interp.MUTABLE_EXTRA + (BufV,)
+PARAM_EMPTY = z3.Const("Parameter.empty", Ref)
+BOOL_T = z3.Const("builtin:bool", Ref)
 bufcat = z3.Function("bufcat", S, S, S)
 str_of = z3.Function("str_of", Ref, S)  # str(obj)
 EMPTY = sym.str_lit("")
@@ -106,6 +113,26 @@ class ControlTheory(Theory):
                 return [(st, IntV(v.kind_t))]
             if attr in KINDS:
                 return [(st, IntV(KINDS[attr]))]
+            if attr == "default":
+                return [(st, RefV(v.default_t))]
+            if attr == "annotation":
+                return [(st, RefV(v.annot_t))]
+        if isinstance(v, ClassV):
+            # class-level constant of a repo class (e.g. CLIENT_INFO.TERMINAL_WIDTH), read from the real ClassDef
+            ci = self.ip.repo.classes.get(v.name)
+            if ci is not None:
+                for n in ci.node.body:
+                    if isinstance(n, ast.Assign) and len(n.targets) == 1 and isinstance(n.targets[0], ast.Name) and n.targets[0].id == attr:
+                        try:
+                            return [(st, self.ip.lit(ast.literal_eval(n.value)))]
+                        except Exception:
+                            break
+        if isinstance(v, BuiltinV) and v.recv is None:
+            if v.name == "Parameter" and attr == "empty":
+                return [(st, RefV(PARAM_EMPTY))]
+            if v.name == "Parameter" and attr in KINDS:
+                return [(st, IntV(KINDS[attr]))]
+            return [(st, BuiltinV(f"{v.name}.{attr}"))]
         if isinstance(v, RefV):
             if attr == "__name__":
                 return [(st, StrV(z3.Select(arr("fname", A_RS), v.t)))]
@@ -125,6 +152,9 @@ class ControlTheory(Theory):
         return super().value_attr(st, fr, v, attr)
 
     def self_attr(self, st, fr, v, attr):
+        if "self." + attr in self.hooks:
+            # a method inherited from a library base class (argparse.ArgumentParser.add_argument, ...): assumed contract
+            return [(st, BuiltinV("self." + attr))]
         raise Unsupported(f"undeclared attribute self.{attr}")
 
     def to_str(self, st, fr, v):
@@ -139,7 +169,116 @@ class ControlTheory(Theory):
     def equal(self, st, a, b, identity):
         if isinstance(a, RefV) and isinstance(b, ExcV) or isinstance(a, ExcV) and isinstance(b, RefV):
             return z3.BoolVal(False)
+        for x, y in ((a, b), (b, a)):
+            if isinstance(x, RefV) and isinstance(y, BuiltinV) and y.recv is None:
+                if y.name == "bool":
+                    return x.t == BOOL_T
+                return x.t == z3.Const("builtin:" + y.name, Ref)
+            if isinstance(x, (FuncV,)) and isinstance(y, (RefV, BuiltinV)):
+                # a function defined in the repository is neither a typing alias nor a builtin
+                return z3.BoolVal(False)
+            if isinstance(x, StrV) and isinstance(y, (RefV, BuiltinV, FuncV)):
+                return z3.BoolVal(False)
+        if isinstance(a, BuiltinV) and isinstance(b, BuiltinV) and a.recv is None and b.recv is None:
+            return z3.BoolVal(a.name == b.name)
+        if isinstance(a, FuncV) and isinstance(b, FuncV):
+            return z3.BoolVal(a.finfo is b.finfo and a.node is b.node)
         return super().equal(st, a, b, identity)
+
+    def binop(self, st, op, a, b):
+        if isinstance(op, ast.Add) and isinstance(a, EncodedV) and isinstance(b, BytesV):
+            # bytes concatenation: s.encode() + b"lit"  ==  (s + "lit").encode()
+            return EncodedV(sym.str_concat([StrV(a.t), b.s]).t)
+        return super().binop(st, op, a, b)
+
+    def subscript(self, st, fr, c, key):
+        if isinstance(c, StrV) and isinstance(key, IntV) and z3.is_int_value(z3.simplify(key.t)) and z3.simplify(key.t).as_long() == 0:
+            # s[0] of a (non-empty) identifier; parameter names are never empty
+            return [(st, StrV(z3.Function("str_first_char", S, S)(c.t)))]
+        if isinstance(c, BuiltinV) and c.recv is None and isinstance(key, RefV):
+            # a typing expression over an alias, e.g. Iterable[ArgsT]: one object per (constructor, argument) (typing caches them)
+            return [(st, RefV(z3.Function("typing_" + c.name, Ref, Ref)(key.t)))]
+        if "subscript" in self.hooks:
+            r = self.hooks["subscript"](st, fr, c, key)
+            if r is not None:
+                return r
+        return super().subscript(st, fr, c, key)
+
+    def comprehension(self, st, fr, e):
+        """(expr for x in <tuple display>): unrolled; the result is only consumed by any()/all()"""
+        ip = self.ip
+        gens = e.generators
+        if len(gens) != 1 or gens[0].ifs or gens[0].is_async or not isinstance(gens[0].target, ast.Name):
+            raise Unsupported("comprehension shape")
+        out = []
+        for s, src in ip.ev(st, fr, gens[0].iter):
+            if isinstance(src, Exit):
+                out.append((s, src))
+                continue
+            src = ip.deref(s, src)
+            if not isinstance(src, TupleV):
+                raise Unsupported("comprehension over " + type(src).__name__)
+            cur = [(s, [])]
+            var = gens[0].target.id
+            for item in src.items:
+                nxt = []
+                for s2, acc in cur:
+                    if isinstance(acc, Exit):
+                        nxt.append((s2, acc))
+                        continue
+                    had = var in s2.loc
+                    old = s2.loc.get(var)
+                    s2.loc[var] = item
+                    for s3, v in ip.ev(s2, fr, e.elt):
+                        if had:
+                            s3.loc[var] = old
+                        else:
+                            s3.loc.pop(var, None)
+                        nxt.append((s3, v if isinstance(v, Exit) else acc + [v]))
+                cur = nxt
+            for s2, acc in cur:
+                from pyvc.sym import GenV
+
+                out.append((s2, acc if isinstance(acc, Exit) else GenV(acc)))
+        return out
+
+    def ev_dict_display(self, st, fr, e):
+        """{<const expr>: v, ...} whose keys evaluate to literal strings -> keyword dict"""
+        ip = self.ip
+        if any(k is None for k in e.keys):
+            raise Unsupported("dict display with ** unpacking")
+        out = []
+        for s, vs in ip.ev_seq(st, fr, list(e.keys) + list(e.values)):
+            if isinstance(vs, Exit):
+                out.append((s, vs))
+                continue
+            ks, vals = vs[: len(e.keys)], vs[len(e.keys):]
+            if not all(isinstance(k, StrV) and k.lit is not None for k in ks):
+                raise Unsupported("dict display with non-literal keys")
+            out.append((s, KwV({k.lit: v for k, v in zip(ks, vals)})))
+        return out
+
+    def unpack_assign(self, st, fr, target, v):
+        if isinstance(v, SigValuesV):
+            # `_, param = signature(f).parameters.values()`: ValueError unless there are exactly len(target) parameters
+            seq = v.sig.params()
+            n = len(target.elts)
+            out = []
+            for s, b in self.ip.branch(st, seq.n == n, "unpack"):
+                if not b:
+                    out.append((s, Exit(Exit.RAISE, ExcV("ValueError", []))))
+                    continue
+                cur = [(s, NORMAL)]
+                for j, t in enumerate(target.elts):
+                    nxt = []
+                    for s2, ex in cur:
+                        pv = seq.at(z3.IntVal(j))
+                        pv.idx = z3.IntVal(j)
+                        nxt.extend(self.ip.assign(s2, fr, t, pv))
+                    cur = nxt
+                out.extend(cur)
+            return out
+        return super().unpack_assign(st, fr, target, v)
 
     # -- builtins -------------------------------------------------------------------------------------------
     def call_builtin(self, st, fr, f: BuiltinV, pos, kws, rest_kw, node):
@@ -173,8 +312,25 @@ class ControlTheory(Theory):
             if isinstance(v, NamespaceV):
                 return [(st, v.d)]
             raise Unsupported("vars() of " + type(v).__name__)
+        if name in ("any", "all"):
+            from pyvc.sym import GenV, truthy
+
+            v = pos_d[0]
+            if isinstance(v, (GenV, TupleV)):
+                parts = [truthy(ip.deref(st, x)) for x in (v.parts if isinstance(v, GenV) else v.items)]
+                if name == "any":
+                    return [(st, BoolV(z3.Or(parts) if parts else z3.BoolVal(False)))]
+                return [(st, BoolV(z3.And(parts) if parts else z3.BoolVal(True)))]
+            raise Unsupported(name + "() of " + type(v).__name__)
+        if name == "repr":
+            v = pos_d[0]
+            if isinstance(v, RefV):
+                return [(st, StrV(z3.Function("repr_of", Ref, S)(v.t)))]
+            return [(st, StrV(fresh("repr", S)))]
         if name == "len":
             v = pos_d[0]
+            if isinstance(v, TupleV):
+                return [(st, IntV(len(v.items)))]
             if isinstance(v, SeqV):
                 return [(st, IntV(v.n))]
             if isinstance(v, (StrV, EncodedV)):
@@ -210,6 +366,12 @@ class ControlTheory(Theory):
                     raise Unsupported("truncate(size)")
                 ip.place_set(st, place, BufV(EMPTY if val.at0 else val.content, val.at0))
                 return [(st, IntV(0))]
+        if isinstance(val, KwV):
+            return self.kw_method(st, fr, place, val, name, pos, kws, node)
+        if isinstance(val, SetV) and name == "add":
+            item = ip.deref(st, pos[0])
+            ip.place_set(st, place, val.add(val.layout.pack(item)[0]))
+            return [(st, NoneV())]
         if isinstance(val, DictV):
             return self.dict_method(st, fr, place, val, name, pos, kws, node)
         if isinstance(val, SeqV) and name == "append":
@@ -230,6 +392,8 @@ class ControlTheory(Theory):
                 return [(st, EncodedV(val.t))]
             if name == "replace":
                 return [(st, StrV(z3.Function("str_replace_us_dash", S, S)(val.t)))]
+            if name == "upper":
+                return [(st, StrV(z3.Function("str_upper", S, S)(val.t)))]
             if name == "startswith":
                 return [(st, BoolV(z3.Function("str_starts_us", S, B)(val.t)))]
         if isinstance(val, BytesV) and name == "decode":
@@ -244,6 +408,38 @@ class ControlTheory(Theory):
             if key in self.hooks:
                 return self.hooks[key](st, fr, val, pos, kws, node)
         raise Unsupported(f"method .{name}() on {type(val).__name__}")
+
+    def kw_method(self, st, fr, place, kw: KwV, name, pos, kws, node):
+        """methods of a keyword dictionary with literal keys (a `**kwargs` parameter held in a local)"""
+        ip = self.ip
+        key = ip.deref(st, pos[0]) if pos else None
+        if not (isinstance(key, StrV) and key.lit is not None):
+            raise Unsupported(f"kwargs.{name}(<non-literal key>)")
+        k = key.lit
+        if name == "get":
+            return [(st, kw.d[k] if k in kw.d else (pos[1] if len(pos) > 1 else NoneV()))]
+        if name == "setdefault":
+            if k in kw.d:
+                return [(st, kw.d[k])]
+            if place is None:
+                raise Unsupported("kwargs.setdefault on a detached dictionary")
+            v = ip.deref_for_store(st, pos[1]) if len(pos) > 1 else NoneV()
+            d2 = dict(kw.d)
+            d2[k] = v
+            ip.place_set(st, place, KwV(d2))
+            return [(st, v)]
+        if name == "pop":
+            if k in kw.d:
+                if place is None:
+                    raise Unsupported("kwargs.pop on a detached dictionary")
+                d2 = dict(kw.d)
+                v = d2.pop(k)
+                ip.place_set(st, place, KwV(d2))
+                return [(st, v)]
+            if len(pos) > 1:
+                return [(st, pos[1])]
+            return [(st, Exit(Exit.RAISE, ExcV("KeyError", [key])))]
+        raise Unsupported(f"kwargs.{name}()")
 
     def dict_method(self, st, fr, place, d: DictV, name, pos, kws, node):
         ip = self.ip
